@@ -79,8 +79,16 @@ def reference(pts, shift, pad=3):
     ids = {cls(t)[0]: k for k, t in enumerate(incell)}
     verts = np.array([pos[t] for t in incell])
     edges = Counter(); ok = True; rmax = 0.0
+    # the statement's own precondition, exactly: every Voronoi vertex in the cell or adjacent to it has its three generating seeds inside the window koala
+    # replicates (3x3 for N > 10, 5x5 otherwise).  rmax <= 1/3 resp. 2/3 is only the sufficient bound the statement quotes.
+    reach = 1 if N > 10 else 2
+    window_ok = True
     for k, t in enumerate(incell):
         a, b, c = allp[tri.simplices[t]]; rmax = max(rmax, np.linalg.norm(circum(a, b, c) - a))
+        for tt in [t] + [nb for nb in tri.neighbors[t] if nb >= 0]:
+            q = allp[tri.simplices[tt]]
+            if np.any(q < -reach) or np.any(q >= 1 + reach):
+                window_ok = False
         for nb in tri.neighbors[t]:
             if nb < 0: ok = False; continue
             cid, o = cls(nb)
@@ -90,6 +98,7 @@ def reference(pts, shift, pad=3):
             edges[min(e, er)] += 1
     # every edge is seen from both of its triangles
     edges = Counter({e: c // 2 if e[0] != e[1] or (e[2], e[3]) != (0, 0) else c for e, c in edges.items()})
+    reference.window_ok = window_ok
     return verts, edges, rmax, ok, wall
 
 
@@ -101,6 +110,11 @@ def families(rng, N):
     yield "jitter", ((np.stack([gx.flatten(), gy.flatten()], 1)[:N] + 0.5 + 0.3 * rng.uniform(-1, 1, size=(N, 2))) / g) % 1
     b = rng.uniform(size=(N, 2)); b[:, 0] = np.where(rng.random(N) < 0.5, 1e-4 * rng.random(N), 1 - 1e-4 * rng.random(N)); yield "boundary", b
     x = rng.uniform(size=N); yield "nearcollinear", np.stack([x, (0.5 + 1e-3 * rng.normal(size=N)) % 1], 1)
+    # four points that are nearly - not exactly - on a circle: a square grid with a jitter of 1e-8 .. 1e-7 (pairs of Voronoi vertices 1e-8 apart; the
+    # statement excludes exactly co-circular points only)
+    if N >= 9:
+        eps = float(rng.choice([1e-8, 3e-8, 1e-7]))
+        yield "jitter-tiny", ((np.stack([gx.flatten(), gy.flatten()], 1)[:N] + 0.5 + eps * rng.uniform(-1, 1, size=(N, 2))) / g + rng.uniform(0, 1, size=2)) % 1
     # narrow bands (large empty circles, still within the density bound): horizontal and vertical, anywhere in the cell and hugging the wall
     for axis in (0, 1):
         w = rng.choice([0.05, 0.1, 0.2]); c = rng.choice([0.0, rng.uniform()])
@@ -112,8 +126,10 @@ def judge(ctx, name, pts, shift, l, rep):
     """the statement, against the independent reference; returns False if excluded or violated"""
     N = len(pts)
     verts, edges, rmax, ok, wall = reference(pts, shift)
-    if rmax > (1 / 3 if N > 10 else 2 / 3) or not ok:
+    if not ok or not reference.window_ok:
         ctx.count("precondition_excluded_density"); return None
+    if rmax > (1 / 3 if N > 10 else 2 / 3):
+        ctx.count("beyond_the_sufficient_density_bound_but_window_exact")
     if wall < 1e-12:          # circumcentres of well-shaped triangles are accurate to ~1e-15; closer to the wall than this the cell membership is a matter of rounding
         ctx.count("precondition_excluded_vertex_on_cell_wall"); return None
     if l.n_vertices != len(verts):
@@ -193,8 +209,8 @@ def run(ctx):
             for fam, pts in families(rng, N):
                 if len(np.unique(np.round(pts, 12), axis=0)) < N:
                     continue
-                if fam in ("boundary", "nearcollinear") and N < 20:
-                    continue                         # these families violate the density bound at small N (measured in the design phase)
+                if fam in ("boundary", "nearcollinear") and N < 11:
+                    continue                         # these families leave the replicated window at small N (measured in the design phase)
                 if trial >= 100 and fam not in ("band", "uniform", "cluster"):
                     continue
                 for shift in (False, True):
